@@ -1,10 +1,9 @@
 /-
-C02, execution half — F2a at top level: `defn`, program texts.
+C02, execution half — F2 at top level: program texts.
 
-A program text of F2a is a list of top-level forms, each a `defn` (fixed arity, distinct non-lazy
-parameters, a body in `Ff name`) or an expression of `Ff ""`. `LoadExpressions` compiles the whole
-text at once: the templates of all its `defn`s are in the function table before the first
-instruction runs; `createClosure t` copies template `t`.
+A program text of F2 is a list of top-level forms of `Ff true ""`: expressions, `defn`s, `fn`s.
+`LoadExpressions` compiles the whole text at once: the templates of all its `fn`/`defn` — nested
+ones too — are in the function table before the first instruction runs (`GenOk`).
 -/
 import ZygoVerif.Proofs.SimF2
 import ZygoVerif.Proofs.SimFcTop
@@ -13,349 +12,8 @@ set_option linter.unusedVariables false
 namespace ZygoVerif.Sim
 open ZygoVerif.Core ZygoVerif.VM
 
-/-! ## `defn` in the generator -/
-
-/-- the template `buildSexpFun` registers for a top-level `defn` -/
-def tmplOf (isFn : Nat → Bool) (gs : GS) (name : String) (ps : List String) : FnObj :=
-  { name := name, nargs := ps.length, varargs := false, params := ps, closing := newClosing isFn gs.live }
-
-/-- … and when its body is compiled -/
-def tmplDone (isFn : Nat → Bool) (gs : GS) (name : String) (ps : List String) (b : List Instr) : FnObj :=
-  { tmplOf isFn gs name ps with code := fnCode gs.fns.length ps b }
-
-/-- the generator state after `allocTemplate` -/
-def gsAlloc (isFn : Nat → Bool) (gs : GS) (name : String) (ps : List String) : GS :=
-  { gs with fns := gs.fns ++ [tmplOf isFn gs name ps] }
-
-/-- … and after `finishTemplate` -/
-def gsDone (isFn : Nat → Bool) (gs : GS) (name : String) (ps : List String) (b : List Instr) : GS :=
-  { gs with fns := (gs.fns ++ [tmplOf isFn gs name ps]).set gs.fns.length (tmplDone isFn gs name ps b) }
-
-/-- the context in which the body of `defn name` is compiled -/
-def bodyCtx (c : Ctx) (gs : GS) (name : String) (ps : List String) (body : List Expr) : Ctx :=
-  { tail := true, scopes := 0, funcname := if !rebindsOwnName name ps none body then name else "", known := (name, gs.fns.length) :: c.known }
-
-theorem compile_defn_ok (isFn : Nat → Bool) (c : Ctx) (name : String) (ps : List String) (body : List Expr) (gs : GS)
-    (b : List Instr) (tl : Bool) (hname : name ≠ "")
-    (hb : (compileBegin isFn (bodyCtx c gs name ps body) body).run (gsAlloc isFn gs name ps)
-      = .ok ((b, tl), gsAlloc isFn gs name ps)) :
-    (compile isFn c (.defn name ps none body)).run gs =
-      .ok (([.createClosure gs.fns.length, .popStackPutEnv name, .push .nil], c.tail), gsDone isFn gs name ps b) := by
-  rw [compile]
-  have hemp : name.isEmpty = false := by
-    simpa [String.isEmpty_iff] using hname
-  unfold allocTemplate finishTemplate
-  simp only [bind, StateT.bind, StateT.run, get, getThe, MonadStateOf.get, StateT.get, pure, Except.pure, Except.bind,
-    set, StateT.set, StateT.pure, modify, modifyGet, MonadStateOf.modifyGet, StateT.modifyGet, hemp, Bool.false_eq_true,
-    if_false, Option.toList, List.append_nil, Option.isSome]
-  have hb' := hb
-  unfold bodyCtx gsAlloc tmplOf at hb'
-  simp only [StateT.run] at hb'
-  rw [hb']
-  simp only [gsDone, tmplDone, tmplOf, fnCode, List.getD_eq_getElem?_getD, List.getElem?_append_right (Nat.le_refl _),
-    Nat.sub_self, List.getElem?_cons_zero, Option.getD_some]
-
-theorem newClosing_single (isFn : Nat → Bool) : newClosing isFn [some 0] = [some 0] := by
-  unfold newClosing
-  simp only [newClosing.go]
-  split <;> simp [newClosing.go]
-
-/-! ## Top-level forms -/
-
-def FtForm : Expr → Bool
-  | .defn name ps rest body =>
-    rest.isNone && okName name && (name != "") && decide ps.Nodup && ps.all okParam && !body.isEmpty && FfList name body
-  | e => Ff "" e
-
-def FtList : List Expr → Bool
-  | [] => true
-  | e :: es => FtForm e && FtList es
-
-/-- what compiling top-level forms does to the generator state: templates appended, nothing else -/
-structure KeepFns (g₁ g₂ : GS) : Prop where
-  len : g₁.fns.length ≤ g₂.fns.length
-  fns : ∀ t, t < g₁.fns.length → g₂.fns.getD t {} = g₁.fns.getD t {}
-  live : g₂.live = g₁.live
-  loops : g₂.loops = g₁.loops
-  loopstack : g₂.loopstack = g₁.loopstack
-
-theorem KeepFns.refl (g : GS) : KeepFns g g := ⟨Nat.le_refl _, fun _ _ => rfl, rfl, rfl, rfl⟩
-
-theorem KeepFns.trans {a b c : GS} (h₁ : KeepFns a b) (h₂ : KeepFns b c) : KeepFns a c :=
-  ⟨Nat.le_trans h₁.len h₂.len, fun t ht => (h₂.fns t (Nat.lt_of_lt_of_le ht h₁.len)).trans (h₁.fns t ht),
-   h₂.live.trans h₁.live, h₂.loops.trans h₁.loops, h₂.loopstack.trans h₁.loopstack⟩
-
-theorem keepFns_done (isFn : Nat → Bool) (gs : GS) (name : String) (ps : List String) (b : List Instr) :
-    KeepFns gs (gsDone isFn gs name ps b) := by
-  refine ⟨by simp [gsDone], fun t ht => ?_, rfl, rfl, rfl⟩
-  simp only [gsDone, List.getD_eq_getElem?_getD]
-  rw [List.getElem?_set_ne (by omega), List.getElem?_append_left ht]
-
-theorem bodyCtx_funcname (c : Ctx) (gs : GS) (name : String) (ps : List String) (body : List Expr) :
-    (bodyCtx c gs name ps body).funcname = name ∨ (bodyCtx c gs name ps body).funcname = "" := by
-  unfold bodyCtx
-  simp only
-  split
-  · exact Or.inl rfl
-  · exact Or.inr rfl
-
-theorem compile_total_Ft (e : Expr) (he : FtForm e = true) (isFn : Nat → Bool) (c : Ctx) (gs : GS) (hfn : c.funcname = "") :
-    ∃ code t gs', (compile isFn c e).run gs = .ok ((code, t), gs') ∧ code ≠ [] ∧ KeepFns gs gs' := by
-  cases e with
-  | defn name ps rest body =>
-    simp only [FtForm, Bool.and_eq_true, Option.isNone_iff_eq_none, bne_iff_ne, ne_eq, decide_eq_true_eq,
-      Bool.not_eq_true', List.isEmpty_eq_false_iff] at he
-    obtain ⟨⟨⟨⟨⟨⟨hrest, hname⟩, hne⟩, hnd⟩, hps⟩, hbody⟩, hff⟩ := he
-    subst hrest
-    obtain ⟨b, tl, hb, _⟩ := compileBegin_total_Ff name body hbody hff isFn (bodyCtx c gs name ps body)
-      (gsAlloc isFn gs name ps) (bodyCtx_funcname c gs name ps body)
-    exact ⟨_, _, _, compile_defn_ok isFn c name ps body gs b tl hne hb, by simp, keepFns_done isFn gs name ps b⟩
-  | _ =>
-    all_goals
-      obtain ⟨code, t, h1, hne⟩ := compile_total_Ff "" _ he isFn c gs (Or.inr hfn)
-      exact ⟨code, t, gs, h1, hne, KeepFns.refl gs⟩
-
-theorem compileBegin_total_Ft : ∀ (es : List Expr), es ≠ [] → FtList es = true → ∀ isFn c gs, c.funcname = "" →
-    ∃ code t gs', (compileBegin isFn c es).run gs = .ok ((code, t), gs') ∧ code ≠ [] ∧ KeepFns gs gs'
-  | [], hne, _, _, _, _, _ => absurd rfl hne
-  | [e], _, he, isFn, c, gs, hfn => by
-    rw [FtList] at he
-    simp only [Bool.and_eq_true] at he
-    rw [compileBegin]
-    exact compile_total_Ft e he.1 isFn c gs hfn
-  | e :: e' :: es, _, he, isFn, c, gs, hfn => by
-    rw [FtList] at he
-    simp only [Bool.and_eq_true] at he
-    obtain ⟨a, ta, g1, ha, hane, hf1⟩ := compile_total_Ft e he.1 isFn { c with tail := false } gs hfn
-    obtain ⟨b, tb, g2, hb, _, hf2⟩ := compileBegin_total_Ft (e' :: es) (by simp) he.2 isFn c g1 hfn
-    refine ⟨a ++ (if a.isEmpty then [] else [.pop]) ++ b, tb, g2, ?_, by simp [hane], hf1.trans hf2⟩
-    rw [compileBegin]
-    · simp only [g_bind_ok, g_pure_ok]
-      exact ⟨_, _, ha, _, _, hb, rfl⟩
-    · intro hh; cases hh
-
-/-! ## `defn` at top level -/
-
-/-- top level: the live stack is the global scope, the running function has no parent -/
-structure TopCtx (s : St) : Prop where
-  lin : s.linear = [some 0]
-  par : (fnOf s s.curfunc).parent = none
-  cur : s.curfunc < s.fns.length
-  main : mainFn < s.fns.length
-
-theorem TopCtx.frame {s s' : St} (h : TopCtx s) (hf : Frame s s') : TopCtx s' :=
-  ⟨by rw [hf.linear]; exact h.lin, by rw [hf.curfunc, hf.fns _ h.cur]; exact h.par,
-   by rw [hf.curfunc]; exact Nat.lt_of_lt_of_le h.cur hf.fnsLen, Nat.lt_of_lt_of_le h.main hf.fnsLen⟩
-
-/-- the id map extended by a new closure object -/
-def mapWith (m : Nat → Nat) (vid cid : Nat) : Nat → Nat := fun id => if id = vid then cid else m id
-
-theorem simF_defn {n : Nat} (name : String) (ps : List String) (body : List Expr)
-    (hform : FtForm (.defn name ps none body) = true) (isFn : Nat → Bool) (c : Ctx) (gs : GS)
-    (r : (List Instr × Bool) × GS) (hc : (compile isFn c (.defn name ps none body)).run gs = .ok r)
-    (hlive : gs.live = [some 0]) {m : Nat → Nat} {s : St} {rs : Ref.St} {pre post : List Instr}
-    (hrel : RelF m s rs 0) (htop : TopCtx s) (hlen : r.2.fns.length ≤ s.fns.length)
-    (hT' : ∀ t, gs.fns.length ≤ t → t < r.2.fns.length → fnOf s t = r.2.fns.getD t {}) (hseg : Seg s pre r.1.1 post) :
-    SimF r.1.1 m s rs 0 (Ref.eval (n + 1) (.defn name ps none body) 0 rs) := by
-  simp only [FtForm, Bool.and_eq_true, Option.isNone_none, true_and, bne_iff_ne, ne_eq, decide_eq_true_eq,
-    Bool.not_eq_true', List.isEmpty_eq_false_iff, List.all_eq_true] at hform
-  obtain ⟨⟨⟨⟨⟨hname, hne⟩, hnd⟩, hps⟩, hbody⟩, hff⟩ := hform
-  obtain ⟨b, tl, hb, _⟩ := compileBegin_total_Ff name body hbody hff isFn (bodyCtx c gs name ps body)
-    (gsAlloc isFn gs name ps) (bodyCtx_funcname c gs name ps body)
-  have hceq := compile_defn_ok isFn c name ps body gs b tl hne hb
-  rw [hceq] at hc
-  injection hc with hc
-  subst hc
-  have hlenD : (gsDone isFn gs name ps b).fns.length = gs.fns.length + 1 := by simp [gsDone]
-  have htl : gs.fns.length < s.fns.length := by have := hlen; simp only at this; omega
-  have hT := hT' gs.fns.length (Nat.le_refl _) (by simp only; omega)
-  simp only at hseg hT ⊢
-  -- the template in the running state
-  have hTd : fnOf s gs.fns.length = tmplDone isFn gs name ps b := by
-    rw [hT]; simp [gsDone, List.getD_eq_getElem?_getD]
-  -- the reference side
-  rw [Ref.eval]
-  show SimF _ m s rs 0
-    (match Ref.define { rs with clos := rs.clos ++ [{ ps := ps, rest := none, body := body, env := 0 }] } 0 name
-        (.fn ((rs.clos ++ [({ ps := ps, rest := none, body := body, env := 0 } : Ref.Clos)]).length - 1)) with
-     | some s' => .ok .nil s'
-     | none => .err { rs with clos := rs.clos ++ [{ ps := ps, rest := none, body := body, env := 0 }] })
-  have hcid : (rs.clos ++ [({ ps := ps, rest := none, body := body, env := 0 } : Ref.Clos)]).length - 1 = rs.clos.length := by
-    simp
-  rw [hcid]
-  generalize hrs1 : ({ rs with clos := rs.clos ++ [{ ps := ps, rest := none, body := body, env := 0 }] } : Ref.St) = rs₁
-  -- createClosure
-  have a0 : At s pre (.createClosure gs.fns.length) ([.popStackPutEnv name, .push .nil] ++ post) :=
-    ⟨hseg.user, by rw [hseg.code]; simp, hseg.pc⟩
-  have r0 : ReachX s (afterClosure s gs.fns.length) := (Reach.step a0 (fun f => exec_createClosure f _ s)).toX
-  generalize hs1 : afterClosure s gs.fns.length = s₁ at r0
-  have hfns1 : s₁.fns = s.fns ++ [closureObj s gs.fns.length] := by subst hs1; rfl
-  have hfo1 : ∀ id, id < s.fns.length → fnOf s₁ id = fnOf s id := fun id hid => by
-    unfold fnOf; rw [hfns1]; simp only [List.getD_eq_getElem?_getD, List.getElem?_append_left hid]
-  have hfl1 : s.fns.length ≤ s₁.fns.length := by rw [hfns1]; simp
-  have hnew1 : fnOf s₁ s.fns.length = closureObj s gs.fns.length := by
-    unfold fnOf; rw [hfns1]; simp [List.getD_eq_getElem?_getD]
-  have hclos1 : ClosExt rs rs₁ := fun i c' hc' => by
-    subst hrs1; show (rs.clos ++ [_])[i]? = some c'
-    rw [List.getElem?_append_left (lt_of_getElem?_some hc')]; exact hc'
-  have hmext : MExt s m (mapWith m s.fns.length rs.clos.length) := fun id hid => by
-    unfold mapWith; rw [if_neg (by omega)]
-  have rel1 : RelF (mapWith m s.fns.length rs.clos.length) s₁ rs₁ 0 :=
-    hrel.grow (by subst hs1; rfl) (by subst hs1; rfl) (by subst hs1; rfl) (by subst hs1; rfl) (by subst hs1; rfl)
-      hfl1 hfo1 (by subst hrs1; rfl) (by subst hrs1; rfl) (by subst hrs1; rfl) hclos1 hmext
-  -- the new closure object is good
-  have hcn : closingNow s = [some 0] := by unfold closingNow; rw [htop.lin]; exact newClosing_single _
-  have hmv : mapWith m s.fns.length rs.clos.length s.fns.length = rs.clos.length := by unfold mapWith; rw [if_pos rfl]
-  have hgood : GoodFn (mapWith m s.fns.length rs.clos.length) s₁ rs₁ s.fns.length := by
-    refine ⟨by rw [hfns1]; simp, htop.main, { ps := ps, rest := none, body := body, env := 0 }, ?_, rfl, rfl, hnd,
-      hps, hbody, ?_, ?_, ?_, ?_, ?_, ⟨s.curfunc, ?_, htop.cur, ?_⟩,
-      gs.fns.length, b, tl, isFn, bodyCtx c gs name ps body, gsAlloc isFn gs name ps, gsAlloc isFn gs name ps, name,
-      ?_, Nat.lt_of_lt_of_le htl hfl1, ?_, hb, rfl, bodyCtx_funcname c gs name ps body, hff⟩
-    · rw [hmv]; subst hrs1; show (rs.clos ++ [_])[rs.clos.length]? = _; simp
-    · rw [hnew1]; show (fnOf s gs.fns.length).params = ps; rw [hTd]; rfl
-    · rw [hnew1]; show (fnOf s gs.fns.length).nargs = ps.length; rw [hTd]; rfl
-    · rw [hnew1]; show (fnOf s gs.fns.length).varargs = false; rw [hTd]; rfl
-    · rw [hnew1]; show (fnOf s gs.fns.length).user = false; rw [hTd]; rfl
-    · rw [hnew1]; exact hcn
-    · rw [hnew1]; rfl
-    · rw [hfo1 _ htop.cur]; exact htop.par
-    · rw [hnew1]; show (fnOf s gs.fns.length).code = _; rw [hTd]; rfl
-    · rw [hfo1 _ htl, hTd]
-      show newClosing isFn gs.live = [some 0]
-      rw [hlive]; exact newClosing_single _
-  -- popStackPutEnv name
-  have a1 : At s₁ (pre ++ [.createClosure gs.fns.length]) (.popStackPutEnv name) ([.push .nil] ++ post) := by
-    subst hs1
-    exact ⟨hseg.user.trans rfl |> fun h => by
-        show (fnOf (afterClosure s gs.fns.length) s.curfunc).user = false
-        rw [show fnOf (afterClosure s gs.fns.length) s.curfunc = fnOf s s.curfunc from hfo1 _ htop.cur]; exact hseg.user,
-      by show (fnOf (afterClosure s gs.fns.length) s.curfunc).code = _
-         rw [show fnOf (afterClosure s gs.fns.length) s.curfunc = fnOf s s.curfunc from hfo1 _ htop.cur, hseg.code]; simp,
-      by show s.pc + 1 = _; rw [hseg.pc]; simp⟩
-  have hd1 : s₁.data = some (.fn s.fns.length) :: s.data := by subst hs1; rfl
-  have hp := psp_stepF a1 hd1 rel1 hname (valIn_fn hgood)
-  have htrfn : trf (mapWith m s.fns.length rs.clos.length) (.fn s.fns.length) = .fn rs.clos.length := by
-    show Val.fn (mapWith m s.fns.length rs.clos.length s.fns.length) = _; rw [hmv]
-  rw [htrfn] at hp
-  have hfr01 : FrameF s s₁ := by
-    subst hs1
-    exact ⟨⟨rfl, rfl, rfl, rfl, hfl1, hfo1, Nat.le_refl _, fun _ _ => rfl⟩, Nat.le_refl _, fun _ _ => rfl⟩
-  have hext01 : RExt rs rs₁ := ⟨by subst hrs1; exact fun i fr hf => ⟨fr, hf, rfl⟩, hclos1⟩
-  cases hdef : Ref.define rs₁ 0 name (.fn rs.clos.length) with
-  | none =>
-    rw [hdef] at hp
-    simp only
-    exact FailsX.of_reach r0 hp.toX
-  | some rs₂ =>
-    rw [hdef] at hp
-    obtain ⟨r2, rel2, ext2⟩ := hp
-    simp only
-    generalize hs2 : (s₁.jmp (s₁.pc + 1) s.data).bind 0 name (.fn s.fns.length) = s₂ at r2 rel2
-    have hfr12 : FrameF s₁ s₂ := by subst hs2; exact (FrameF.jmp _ _ _).trans (FrameF.bind _ _ _ _)
-    have a2 : At s₂ (pre ++ [.createClosure gs.fns.length, .popStackPutEnv name]) (.push .nil) post := by
-      have hfn2 : fnOf s₂ s₂.curfunc = fnOf s s.curfunc := by
-        rw [hfr12.curfunc, hfr01.curfunc, hfr12.fns _ (Nat.lt_of_lt_of_le htop.cur hfl1), hfo1 _ htop.cur]
-      refine ⟨by rw [hfn2]; exact hseg.user, by rw [hfn2, hseg.code]; simp, ?_⟩
-      subst hs2; subst hs1
-      show s.pc + 1 + 1 = _; rw [hseg.pc]; simp; omega
-    have r3 := (reach_push a2).toX
-    refine ⟨s₂.jmp (s₂.pc + 1) (some .nil :: s₂.data), mapWith m s.fns.length rs.clos.length, .nil,
-      ((r0.trans r2.toX).trans r3), ⟨?_, ?_, ?_⟩, rfl, rel2.jmp _ _, hmext, hext01.trans ext2,
-      (hfr01.trans hfr12).trans (FrameF.jmp _ _ _), vOk_lit .nil (fun _ _ _ => rfl)⟩
-    · show fnOf s₂ s₂.curfunc = _
-      rw [hfr12.curfunc, hfr01.curfunc, hfr12.fns _ (Nat.lt_of_lt_of_le htop.cur hfl1), hfo1 _ htop.cur]
-    · subst hs2; subst hs1
-      show s.pc + 1 + 1 + 1 = _; simp; omega
-    · subst hs2; subst hs1; rfl
-
-/-! ## Program texts -/
-
-/-- one top-level form -/
-theorem simF_form (n : Nat) (e : Expr) (he : FtForm e = true) (isFn : Nat → Bool) (c : Ctx) (gs : GS)
-    (r : (List Instr × Bool) × GS) (hc : (compile isFn c e).run gs = .ok r) (hfn : c.funcname = "")
-    (hlive : gs.live = [some 0]) (m : Nat → Nat) (s : St) (rs : Ref.St) (pre post : List Instr)
-    (hrel : RelF m s rs 0) (htop : TopCtx s) (hlen : r.2.fns.length ≤ s.fns.length)
-    (hT : ∀ t, gs.fns.length ≤ t → t < r.2.fns.length → fnOf s t = r.2.fns.getD t {}) (hseg : Seg s pre r.1.1 post) :
-    SimF r.1.1 m s rs 0 (Ref.eval n e 0 rs) := by
-  cases e with
-  | defn name ps rest body =>
-    have hrest : rest = none := by
-      simp only [FtForm, Bool.and_eq_true, Option.isNone_iff_eq_none] at he
-      exact he.1.1.1.1.1.1
-    subst hrest
-    cases n with
-    | zero => rw [Ref.eval]; trivial
-    | succ k => exact simF_defn name ps body he isFn c gs r hc hlive hrel htop hlen hT hseg
-  | _ => all_goals exact segment_Ff "" _ he isFn c (Or.inr hfn) gs r hc m s rs 0 pre post hrel hseg n
-
-def FClaimT (n : Nat) : Prop :=
-  ∀ es, es ≠ [] → FtList es = true → ∀ isFn c gs r, (compileBegin isFn c es).run gs = .ok r → c.funcname = "" →
-    gs.live = [some 0] → ∀ m s rs pre post, RelF m s rs 0 → TopCtx s → r.2.fns.length ≤ s.fns.length →
-    (∀ t, gs.fns.length ≤ t → t < r.2.fns.length → fnOf s t = r.2.fns.getD t {}) → Seg s pre r.1.1 post →
-    SimF r.1.1 m s rs 0 (Ref.evalBegin n es 0 rs)
-
-theorem fclaimT : ∀ n, FClaimT n
-  | 0 => by
-    intro es hne hes isFn c gs r hc hfn hlive m s rs pre post hrel htop hlen hT hseg
-    rw [Ref.evalBegin]; trivial
-  | n + 1 => by
-    intro es hne hes isFn c gs r hc hfn hlive m s rs pre post hrel htop hlen hT hseg
-    match es, hne with
-    | [e], _ =>
-      rw [FtList] at hes
-      simp only [Bool.and_eq_true] at hes
-      rw [compileBegin] at hc
-      rw [Ref.evalBegin]
-      exact simF_form n e hes.1 isFn c gs r hc hfn hlive m s rs pre post hrel htop hlen hT hseg
-    | e :: e' :: es', _ =>
-      rw [FtList] at hes
-      simp only [Bool.and_eq_true] at hes
-      rw [compileBegin] at hc
-      · simp only [g_bind_ok, g_pure_ok] at hc
-        obtain ⟨ra, g1, ha, rb, g2, hb, rfl⟩ := hc
-        -- what the generator did
-        obtain ⟨ca, ta, g1', ha', hane', hk1'⟩ := compile_total_Ft e hes.1 isFn { c with tail := false } gs hfn
-        rw [ha] at ha'
-        injection ha' with ha'
-        have hra : ra = (ca, ta) := (Prod.mk.inj ha').1
-        have hg1 : g1 = g1' := (Prod.mk.inj ha').2
-        subst hg1
-        have hk1 := hk1'
-        obtain ⟨cb, tb, g2', hb', _, hk2'⟩ := compileBegin_total_Ft (e' :: es') (by simp) hes.2 isFn c g1 hfn
-        rw [hb] at hb'
-        injection hb' with hb'
-        have hg2 : g2 = g2' := (Prod.mk.inj hb').2
-        subst hg2
-        have hk2 := hk2'
-        have hane : ra.1.isEmpty = false := by
-          rw [hra]; simpa [List.isEmpty_eq_false_iff] using hane'
-        simp only [hane, Bool.false_eq_true, if_false] at hseg hlen hT ⊢
-        rw [Ref.evalBegin]
-        · have ih := simF_form n e hes.1 isFn _ gs (ra, g1) ha hfn hlive m s rs pre ([.pop] ++ rb.1 ++ post) hrel htop
-            (Nat.le_trans hk2.len hlen)
-            (fun t h1 h2 => by rw [hT t h1 (Nat.lt_of_lt_of_le h2 hk2.len)]; exact hk2.fns t h2)
-            (hseg.refocus (by simp))
-          cases h1 : Ref.eval n e 0 rs with
-          | ok v1 rs1 =>
-            rw [h1] at ih
-            obtain ⟨s1, m1, w1, r1, l1, hv1, rel1, hm1, ext1, fr1, hcl1⟩ := ih
-            obtain ⟨r2, m2⟩ := glue_pop hseg l1
-            have ih2 := fclaimT n (e' :: es') (by simp) hes.2 isFn c g1 (rb, g2) hb hfn (hk1.live.trans hlive) m1
-              (s1.jmp (s1.pc + 1) s.data) rs1 _ post
-              (rel1.jmp _ _) (htop.frame (fr1.toFrame.trans (Frame.jmp s1 (s1.pc + 1) s.data)))
-              (Nat.le_trans hlen fr1.fnsLen)
-              (fun t h1 h2 => by
-                show fnOf s1 t = _
-                rw [fr1.fns t (Nat.lt_of_lt_of_le h2 hlen)]
-                exact hT t (Nat.le_trans hk1.len h1) h2)
-              (hseg.moved m2 (c₁ := ra.1 ++ [.pop]) (c₂ := rb.1) (post' := post) rfl (by simp))
-            exact SimF.seq (r1.trans r2.toX) m2 hm1 ext1 (fr1.trans (FrameF.jmp _ _ _)) ih2 (by lenarith)
-          | err rs1 => rw [h1] at ih; exact SimF.prefix ih (fun _ _ hh => by cases hh)
-          | timeout => trivial
-          | brk l rs1 => rw [h1] at ih; exact ih.elim
-          | cont l rs1 => rw [h1] at ih; exact ih.elim
-        · intro hh; cases hh
-      · intro hh; cases hh
+/-- the program texts of the fragment -/
+def FtList (p : List Expr) : Bool := FfList true "" p
 
 /-! ## `LoadExpressions` + `Run` -/
 
@@ -380,13 +38,13 @@ theorem fnOf_loadedF (s : St) (gs' : GS) (code : List Instr) (id : Nat) :
   show (List.set gs'.fns mainFn _).getD id {} = _
   rw [List.getD_eq_getElem?_getD]; rfl
 
-/-- **A non-empty F2a program text, loaded and run** from a resting top-level state related to the
+/-- **A non-empty F2 program text, loaded and run** from a resting top-level state related to the
 reference state: `runText` reports what the reference evaluator yields. -/
 theorem runText_Ft (m : Nat → Nat) (s : St) (rs : Ref.St) (p : List Expr) (hne : p ≠ []) (hp : FtList p = true)
-    (hs : AtRest s) (htop : TopCtx s) (hrel : RelF m s rs 0) (n : Nat) :
+    (hs : AtRest s) (hlin : s.linear = [some 0]) (hrel : RelF m s rs 0) (n : Nat) :
     ∃ N, ∀ fuel, N ≤ fuel → TextOut (runText fuel p s) (Ref.evalBegin n p 0 { rs with trace := [] }) := by
-  obtain ⟨code, t, gs', hc, -, hk⟩ := compileBegin_total_Ft p hne hp (isFnScope (clearTrace s)) {}
-    { fns := s.fns, loops := s.loops, loopstack := s.loopstack, live := s.linear } rfl
+  obtain ⟨code, t, gs', hc, -, hk, -⟩ := compileBegin_total_Ff true "" p hne hp (isFnScope (clearTrace s)) {}
+    { fns := s.fns, loops := s.loops, loopstack := s.loopstack, live := s.linear } (Or.inl rfl)
   have hload : (runGen (compileBegin (isFnScope (clearTrace s)) {} p)).run (clearTrace s)
       = (.ok (code, t), withGen (clearTrace s) gs') := run_runGen_gen _ (clearTrace s) _ gs' hc
   -- the loaded state
@@ -412,12 +70,11 @@ theorem runText_Ft (m : Nat → Nat) (s : St) (rs : Ref.St) (p : List Expr) (hne
      by rw [hfmain], by rw [hfmain]⟩
   have hrelL : RelF m (loadedF s gs' code) { rs with trace := [] } 0 :=
     hrel.load rfl rfl hs.cur.symm rfl rfl hkeep
-  have htopL : TopCtx (loadedF s gs' code) :=
-    ⟨htop.lin, by show (fnOf (loadedF s gs' code) mainFn).parent = none; rw [hfmain]; have := htop.par; rw [hs.cur] at this; exact this,
-     by show mainFn < _; rw [hlenL]; exact hmlt, by rw [hlenL]; exact hmlt⟩
-  have hsim := fclaimT n p hne hp _ {} _ ((code, t), gs') hc rfl htop.lin m (loadedF s gs' code) { rs with trace := [] }
-    (fnOf s mainFn).code [] hrelL htopL (by rw [hlenL]; exact Nat.le_refl _)
-    (fun t' h1 h2 => hfother t' (by have := hs.main; simp only at h1; omega)) hseg
+  have hgen : GenOk { fns := s.fns, loops := s.loops, loopstack := s.loopstack, live := s.linear } gs' (loadedF s gs' code) :=
+    ⟨hlin, hs.main, by rw [hlenL]; exact Nat.le_refl _,
+     fun t' h1 _ => hfother t' (by have := hs.main; simp only at h1; omega)⟩
+  have hsim := segment_Ff_begin true "" p hne hp _ {} (Or.inl rfl) _ ((code, t), gs') hc m (loadedF s gs' code)
+    { rs with trace := [] } 0 (fnOf s mainFn).code [] hrelL (fun _ => hgen) hseg n
   cases hres : Ref.evalBegin n p 0 { rs with trace := [] } with
   | ok v' rs' =>
     rw [hres] at hsim
@@ -479,7 +136,7 @@ theorem relF_initSt (m : Nat → Nat) : RelF m initSt Ref.initSt 0 := by
     cases i with
     | zero => omega
     | succ i => rfl
-  refine ⟨rfl, ?_, ⟨_, rfl, rfl, rfl⟩, ⟨false, ChainF.root _ rfl rfl rfl, FnChainF.root 0 (by decide) rfl ⟨[], rfl⟩⟩, ?_,
+  refine ⟨rfl, ?_, ⟨_, rfl, rfl, rfl⟩, ?_, rfl, ⟨none, ChainF.root _ rfl rfl rfl, FnChainF.root _ 0 (by decide) rfl ⟨[], rfl⟩⟩, ?_,
     rfl, rfl, globals_initSt, ?_, fun _ _ _ _ _ _ _ => rfl⟩
   · intro i x
     cases i with
@@ -493,6 +150,12 @@ theorem relF_initSt (m : Nat → Nat) : RelF m initSt Ref.initSt 0 := by
       | some v =>
         rcases initVars_lookup x v hl with rfl | ⟨rfl, _⟩ <;> rfl
     | succ i => rfl
+  · intro i fr hf p hp
+    cases i with
+    | zero =>
+      simp only [Ref.initSt, List.getElem?_cons_zero, Option.some.injEq] at hf
+      subst hf; cases hp
+    | succ i => simp [Ref.initSt] at hf
   · intro i hi
     cases i with
     | zero => cases hi
@@ -505,6 +168,5 @@ theorem relF_initSt (m : Nat → Nat) : RelF m initSt Ref.initSt 0 := by
       · exact valIn_builtin (fun hok => globalNames_fo x hx hok)
     | succ i => cases hv
 
-theorem topCtx_initSt : TopCtx initSt := ⟨rfl, rfl, by decide, by decide⟩
 
 end ZygoVerif.Sim
